@@ -251,3 +251,102 @@ theorem tickDoneN_wait_done (P : Prog) (n : Nat) (c : Cfg) (fn wf : Nat) (wk aw)
     tickDoneN P n c = loopDone P n (wake c fn wf w) := by
   unfold tickDoneN; rw [h]; dsimp only; rw [hw, hst]
   cases w <;> first | rfl | exact absurd rfl hp
+
+/-! ### the view `unint` -/
+
+/-- view of a configuration whose current wait carries the interruption of a pause request: the interruption removed and
+the parked wake-up (if any) put on the wait future -/
+def unint (c : Cfg) : Cfg :=
+  match c.st with
+  | .waiting fn wf wk aw =>
+      match c.wfs[wf]? with
+      | some (.interrupted _) => { c with st := .waiting fn wf none aw, wfs := setAt c.wfs wf (wk.getD .pending) }
+      | _ => c
+  | _ => c
+
+theorem unint_int (c : Cfg) (fn wf : Nat) (wk aw) (k : Nat) (hst : c.st = .waiting fn wf wk aw)
+    (hw : c.wfs[wf]? = some (.interrupted k)) :
+    unint c = { c with st := .waiting fn wf none aw, wfs := setAt c.wfs wf (wk.getD .pending) } := by
+  unfold unint; rw [hst]; dsimp only; rw [hw]
+
+/-- a parked wake-up is an outcome -/
+def ParkOk (wk : Option WF) : Prop := ∀ o, wk = some o → o ≠ .pending ∧ ∀ k, o ≠ .interrupted k
+
+theorem deliver_unint (c : Cfg) (o : WF) (fn wf : Nat) (wk aw) (k : Nat) (hst : c.st = .waiting fn wf wk aw)
+    (hw : c.wfs[wf]? = some (.interrupted k)) (hp : ParkOk wk) : deliver (unint c) o = unint (deliver c o) := by
+  cases c
+  rename_i st _ _ _ _ _ _ _ wfs _ _ _ _ _ _ _ _ _ _ _ _ _ _ _ _
+  simp only at hst hw
+  subst hst
+  have hg : ∀ x : WF, (setAt wfs wf x)[wf]? = some x := fun x => setAt_self_get _ _ _ _ hw
+  cases wk with
+  | none =>
+    simp only [unint, deliver, hw, hg, Option.getD_none, Option.isNone_none, if_true]
+    simp [setAt]
+  | some o' =>
+    obtain ⟨h1, h2⟩ := hp o' rfl
+    simp only [unint, deliver, hw, hg, Option.getD_some, Option.isNone_some]
+    cases o' with
+    | pending => exact absurd rfl h1
+    | interrupted k' => exact absurd rfl (h2 k')
+    | result v => simp [hw]
+    | failed e => simp [hw]
+
+/-- the run with pauses between the pause request that interrupted its pending wait and the next tick -/
+def QShape (c : Cfg) (fn wf : Nat) (aw : List (Nat × Nat)) : Prop :=
+  ∃ wk k, c.st = .waiting fn wf wk aw ∧ c.wfs[wf]? = some (.interrupted k) ∧ c.pc = .awaitWaiting wf ∧ ParkOk wk ∧
+    c.interrupt ≠ none
+
+theorem parkOk_none : ParkOk none := by intro o h; cases h
+
+theorem deliver_qshape (c : Cfg) (o : WF) (fn wf : Nat) (aw) (ho : o ≠ .pending ∧ ∀ k, o ≠ .interrupted k)
+    (h : QShape c fn wf aw) : QShape (deliver c o) fn wf aw := by
+  obtain ⟨wk, k, hst, hw, hpc, hp, hi⟩ := h
+  cases wk with
+  | none =>
+    have e : deliver c o = { c with st := .waiting fn wf (some o) aw } := by simp only [deliver, hst, hw]; rfl
+    rw [e]
+    exact ⟨some o, k, rfl, hw, hpc, by intro o' ho'; cases ho'; exact ho, hi⟩
+  | some o' =>
+    have e : deliver c o = c := by simp only [deliver, hst, hw]; rfl
+    rw [e]
+    exact ⟨some o', k, hst, hw, hpc, hp, hi⟩
+
+theorem resume_unint (c : Cfg) (v : Option Val) (fn wf : Nat) (aw) (h : QShape c fn wf aw) :
+    (resume (unint c) v).1 = unint (resume c v).1 := by
+  obtain ⟨wk, k, hst, hw, hpc, hp, hi⟩ := h
+  have e1 : (resume c v).1 = deliver c (.result v) := by simp only [resume, hst]
+  have e2 : (resume (unint c) v).1 = deliver (unint c) (.result v) := by
+    rw [unint_int c fn wf wk aw k hst hw]; simp only [resume]
+  rw [e1, e2, deliver_unint c _ fn wf wk aw k hst hw hp]
+
+theorem resume_qshape (c : Cfg) (v : Option Val) (fn wf : Nat) (aw) (h : QShape c fn wf aw) :
+    QShape (resume c v).1 fn wf aw := by
+  have h' := h
+  obtain ⟨wk, k, hst, _⟩ := h'
+  have e1 : (resume c v).1 = deliver c (.result v) := by unfold resume; rw [hst]
+  rw [e1]
+  exact deliver_qshape c _ fn wf aw ⟨(by intro x; cases x), (by intro k x; cases x)⟩ h
+
+theorem complete_wfs (c : Cfg) (f : Nat) (o : EFut) : (complete c f o).wfs = c.wfs ∧ (complete c f o).pc = c.pc ∧
+    (complete c f o).interrupt = c.interrupt := by
+  unfold complete; split
+  · dsimp only; split <;> exact ⟨rfl, rfl, rfl⟩
+  · exact ⟨rfl, rfl, rfl⟩
+
+theorem complete_qshape (c : Cfg) (f : Nat) (o : EFut) (fn wf : Nat) (aw) (h : QShape c fn wf aw) :
+    QShape (complete c f o) fn wf aw := by
+  obtain ⟨wk, k, hst, hw, hpc, hp, hi⟩ := h
+  obtain ⟨g1, g2, g3⟩ := complete_wfs c f o
+  exact ⟨wk, k, by rw [complete_st]; exact hst, by rw [g1]; exact hw, by rw [g2]; exact hpc, hp, by rw [g3]; exact hi⟩
+
+theorem complete_unint (c : Cfg) (f : Nat) (o : EFut) (fn wf : Nat) (aw) (h : QShape c fn wf aw) :
+    complete (unint c) f o = unint (complete c f o) := by
+  obtain ⟨wk, k, hst, hw, hpc, hp, hi⟩ := h
+  rw [unint_int c fn wf wk aw k hst hw,
+    unint_int (complete c f o) fn wf wk aw k (by rw [complete_st]; exact hst) (by rw [(complete_wfs c f o).1]; exact hw)]
+  unfold complete
+  dsimp only
+  split
+  · split <;> rfl
+  · rfl
